@@ -75,7 +75,15 @@ func pC(v int64) *pt              { return &pt{op: "c", n: big.NewInt(v)} }
 func pSym(op string) *pt          { return &pt{op: op} }
 func pOp(op string, a ...*pt) *pt { return &pt{op: op, args: a} }
 func pParam(name string) *pt      { return &pt{op: "param", s: name} }
-func pBe(v *pt, n int) *pt        { return &pt{op: "be", args: []*pt{v}, k: n} }
+func pBe(v *pt, n int) *pt {
+	// the fixed-width encoding of the value of an n-byte string is that string
+	if v.op == "val" && len(v.args) == 1 {
+		if b := v.args[0]; b.op == "sub" && b.n != nil && int(b.n.Int64())-b.k == n {
+			return b
+		}
+	}
+	return &pt{op: "be", args: []*pt{v}, k: n}
+}
 func pSub(b *pt, lo, hi int) *pt {
 	if b.op == "sub" {
 		return pSub(b.args[0], b.k+lo, b.k+hi) // a slice of a slice is a slice of the original
